@@ -149,5 +149,17 @@ def run(chk, replay=None):
             chk.discharged += 1
         else:
             chk.broken_obligations.append({'obligation': 'Thorough/C13Len3.v (C13_injective_len3)', 'output': out[-1200:]})
+    # the replacement text is part of the pseudonym whatever the other flags are: -r with -w, alone and together with --encrypt
+    expx = unb64(run_harness([{"op": "cfg", "repl": b64(b'XX')}, {"op": "hash", "s": b64(b'mydb.orders.archive')}])[1]['o'])
+    with tempfile.TemporaryDirectory() as d:
+        inp = os.path.join(d, 'in.log'); open(inp, 'wb').write((line + '\n').encode())
+        variants = {'-r -w': [CLI, 'redact', inp, '-r', 'XX', '-w'], '-r -w -n -b -i': [CLI, 'redact', inp, '-r', 'XX', '-w', '-n', '-b', '-i'],
+                    '-r -w --encrypt': [CLI, 'redact', inp, '-r', 'XX', '-w', '--encrypt', '-q', os.path.join(d, 'k.key'), '-o', os.path.join(d, 'o.log')]}
+        for name, argv in variants.items():
+            p = subprocess.run(argv, stdin=subprocess.DEVNULL, capture_output=True, cwd=d)
+            got = open(os.path.join(d, 'o.log'), 'rb').read() if '--encrypt' in argv and os.path.exists(os.path.join(d, 'o.log')) else p.stdout
+            chk.count()
+            if expx not in got:
+                chk.violate('CLI: the pseudonym is not <replacement>_<16 hex> of the name under this flag combination', {'flags': name, 'expected': expx.decode(), 'output': got.decode('utf-8', 'replace')[:300]}, tags=['cli', 'flags'])
     chk.assumptions += ["collision-freeness of a 64-bit truncated SHA-256 is proved only on the finite dictionary (bound in the theorem) and reduced to digest-prefix collisions in general",
                         "Sha256.v is a hand-written definition validated against crypto/sha256 on this run"]
